@@ -529,6 +529,18 @@ func (fc *FnCtx) execMapUpdate(st *State, x *ssa.MapUpdate) {
 	m := x.Map.Type().Underlying().(*types.Map)
 	fc.oblige(st, "nilmap", not(eq(mv.T, "0")), x.Pos(), "assignment to entry in nil map")
 	fc.mapStore(st, m, mv.T, k.T, v.T)
+	// anchor "mapupdate#k": k-th map assignment of the function (ghost updates attach here)
+	n := 0
+	for _, b := range fc.curFn.Blocks {
+		for _, in := range b.Instrs {
+			if mu, ok := in.(*ssa.MapUpdate); ok {
+				if mu == x {
+					fc.pointClausesV(st, "after_call", fmt.Sprintf("mapupdate#%d", n), x.Pos(), map[string]Val{"mapkey": k, "mapval": v})
+				}
+				n++
+			}
+		}
+	}
 }
 
 func (fc *FnCtx) mapStore(st *State, m *types.Map, mv, k, v string) {
